@@ -632,3 +632,95 @@ def r13_no_pull_after_handover(ctx, rule='R13h'):
                              'whole rest of the source is pulled with nothing delivered - look-ahead grows with the data'
                              % ', '.join(sorted(handed)))
     return n
+
+
+# ---------------------------------------------------------------------- R13q queues between a reader and the consumer are bounded
+
+_QUEUE_CTORS = {'queue.Queue': 'maxsize', 'queue.LifoQueue': 'maxsize', 'queue.PriorityQueue': 'maxsize', 'queue.SimpleQueue': None,
+                'multiprocessing.Queue': 'maxsize', 'multiprocessing.queues.Queue': 'maxsize', 'asyncio.Queue': 'maxsize'}
+
+_R13Q_CONTROL = '''
+import queue
+class loader:
+    DEPTH = 1000
+    def ahead(self, it):
+        q = queue.Queue(maxsize=min(self.DEPTH, self.limit or 0))
+        return q
+    def bounded(self, it):
+        q = queue.Queue(maxsize=max(1, min(self.DEPTH, 500)))
+        return q
+'''
+
+
+def _provably_positive(e, consts, depth=0):
+    """Is the integer expression >= 1 whatever the unknowns are?  Constants, class / module constants, min() of positives, max() with
+    one positive, sums of positives and non-negatives are decided; anything else is not provable."""
+    if depth > 6:
+        return False
+    if isinstance(e, ast.Constant):
+        return isinstance(e.value, int) and not isinstance(e.value, bool) and e.value >= 1
+    if isinstance(e, ast.Name) and e.id in consts:
+        return _provably_positive(consts[e.id], consts, depth + 1)
+    if isinstance(e, ast.Attribute) and isinstance(e.value, ast.Name) and e.value.id in ('self', 'cls') and e.attr in consts:
+        return _provably_positive(consts[e.attr], consts, depth + 1)
+    if isinstance(e, ast.Call) and isinstance(e.func, ast.Name) and e.func.id == 'min' and e.args and not e.keywords:
+        return all(_provably_positive(a, consts, depth + 1) for a in e.args)
+    if isinstance(e, ast.Call) and isinstance(e.func, ast.Name) and e.func.id == 'max' and e.args and not e.keywords:
+        return any(_provably_positive(a, consts, depth + 1) for a in e.args)
+    if isinstance(e, ast.BinOp) and isinstance(e.op, (ast.Add, ast.Mult)):
+        return _provably_positive(e.left, consts, depth + 1) and _provably_positive(e.right, consts, depth + 1)
+    if isinstance(e, ast.BoolOp) and isinstance(e.op, ast.Or):
+        return _provably_positive(e.values[-1], consts, depth + 1) and all(True for _ in e.values)   # `x or 5`: 5 if x is falsy; x else
+    return False
+
+
+def _unbounded_queues(tree, external_name):
+    consts = {}
+    for n in ast.walk(tree):
+        if isinstance(n, ast.Assign) and len(n.targets) == 1 and isinstance(n.targets[0], ast.Name) and \
+                getattr(n, '_parent', None) is not None and isinstance(n._parent, (ast.Module, ast.ClassDef)):
+            consts[n.targets[0].id] = n.value
+    out = []
+    for c in ast.walk(tree):
+        if not isinstance(c, ast.Call):
+            continue
+        en = external_name(c)
+        if en not in _QUEUE_CTORS:
+            continue
+        kw = _QUEUE_CTORS[en]
+        bound = None
+        if kw is not None:
+            bound = c.args[0] if c.args else next((k.value for k in c.keywords if k.arg == kw), None)
+        if bound is None or not _provably_positive(bound, consts):
+            out.append((c, en, bound))
+    return out
+
+
+def r13_bounded_queues(ctx, files, rule='R13q'):
+    """A queue between a thread that reads the source and the generator that hands the rows on is the look-ahead of the pipeline:
+    its capacity must be a positive constant whatever the options are (maxsize=0 - and a missing maxsize - mean unbounded)."""
+    run = ctx.run
+    run.rule(rule, 'BOUNDED-QUEUES: in the modules of row-wise steps every queue that is created has a capacity that is provably >= 1 '
+                   '(maxsize 0 or absent is an unbounded queue: a reader thread then runs through the whole source ahead of the consumer)')
+    from sa.loader import set_parents
+    ctl = ast.parse(_R13Q_CONTROL)
+    set_parents(ctl)
+
+    def ctl_name(c):
+        return ast.unparse(c.func) if isinstance(c.func, ast.Attribute) else None
+    got = [ast.unparse(b) if b is not None else None for _c, _e, b in _unbounded_queues(ctl, ctl_name)]
+    if got != ['min(self.DEPTH, self.limit or 0)']:
+        raise AnalysisError('R13q self-check failed: %s' % got)
+    n = 0
+    for m in ctx.repo.modules.values():
+        if m.relpath not in files:
+            continue
+        n += 1
+        bad = _unbounded_queues(m.tree, ctx.res.external_name)
+        for c, en, b in bad:
+            run.fail(rule, where(ctx.repo, c), fq(ctx.repo, c), '%s(%s)' % (en, u(b) if b is not None else ''),
+                     'a queue of unbounded (or not provably bounded) capacity in a row-wise step: whoever fills it reads the source as '
+                     'fast as it can, however slowly the rows are taken at the end of the pipeline - look-ahead grows with the data')
+        if not bad:
+            run.ok(rule, m.relpath, m.name, 'no queue, or only queues of provably positive capacity')
+    return n
